@@ -230,6 +230,33 @@ func runC03(r *Report) {
 			r.Ob("R-C03-2", CallPos(sc), strings.Contains(o, "GenerateAnonymousCredentials") && !strings.Contains(o, "param:req"), "id granted on first connection: "+o+" (want the freshly generated id)", "handleFirstConnection", "granted-id-origin")
 		}
 	}
+	// a proof handler that reports success has granted the identity: every success return passes
+	// SetClientID and SetAuthenticated(true) on the connection being authenticated
+	for _, ph := range []*ssa.Function{p2, fc} {
+		if ph == nil {
+			continue
+		}
+		for _, ret := range Returns(ph) {
+			if RetErrKind(ret) != "nil" {
+				continue
+			}
+			for _, need := range []string{"SetClientID", "SetAuthenticated"} {
+				nd := need
+				missing := ReachesWithout(ph, ret, func(in ssa.Instruction) bool {
+					ci, ok := in.(ssa.CallInstruction)
+					if !ok || CalleeOf(ci).Name != nd || originSummary(Recv(ci)) != "param:conn" {
+						return false
+					}
+					if nd == "SetAuthenticated" {
+						b, isC := ConstBool(Arg(ci, 0))
+						return isC && b
+					}
+					return true
+				})
+				r.Ob("R-C03-2", ret.Pos(), !missing, "a success return of the proof handler has passed "+need+" on this connection (success is reported only for a connection that was actually granted the identity)", ph.Name(), "success-grants:"+need)
+			}
+		}
+	}
 	if hh != nil {
 		// the config handed to the phases is the one looked up for req.ClientID
 		for _, pc := range Calls(hh, false, "ServerAuthHandler.handleChallengePhase1", "ServerAuthHandler.handleChallengePhase2") {
